@@ -143,6 +143,9 @@ func checkMetricKeys(conf Config, schema base.LogSchema, orchestrationKeys []str
 	if _, err := schema.CreateFieldLocators(conf.MetricKeys); err != nil {
 		return fmt.Errorf("metricKeys: %w", err)
 	}
+	if err := base.VerifyMetricKeyFields(conf.MetricKeys); err != nil {
+		return fmt.Errorf("metricKeys: %w", err)
+	}
 	for i, key := range conf.MetricKeys {
 		if slices.Index(orchestrationKeys, key) != -1 {
 			return fmt.Errorf("metricKeys[%d]: field '%s' cannot be listed in both .metricKeys and .orchestration/keys", i, key)
